@@ -121,7 +121,7 @@ def run(ctx):
                 p_ = os.path.join(root_, n_)
                 out.append((os.path.relpath(p_, d), os.readlink(p_) if os.path.islink(p_) else ("dir" if os.path.isdir(p_) else "file")))
         return sorted(out)
-    for di, (old_path, new_path) in enumerate([("/pp/model", "/pp/model/small"), ("/pp/report/2024/q1", "/pp/report")]):
+    for di, (old_path, new_path) in enumerate([("/pp/model", "/pp/model/small"), ("/pp/report/2024/q1", "/pp/report"), ("/pp/model", "/fresh/dir/below/model")]):
         for store_kind in ("local", "local_lru"):
             base = tempfile.mkdtemp(prefix="ddsverif_c15p_")
             pkg = "c15p_%d_%d_%s" % (os.getpid(), di, store_kind)
